@@ -52,7 +52,8 @@ VARIABLES
     merged,           \* set of [day, n, lines]: the merged objects (n lines, their set)
     charts,           \* set of [s, e, num, val]: the chart objects; val = set of [p, c, k, v], v > 0
     resp,             \* status of the last worker request (0: none)
-    incs,             \* history: sequence of [p, n, landed, b, e], one per Inc
+    hist,             \* history: set of cells, v = the number of increments that ever landed in the cell
+    nInc,
     built,            \* history: set of [wk, mf, src]: mode file and folded files when the week's report was built
     nRun, nDown, nSet, nWork,
     last              \* the action that led here
@@ -60,21 +61,37 @@ VARIABLES
 cvars == <<files, local, ready, uploaded, store>>                       \* the client side + upload bucket
 wvars == <<merged, charts, resp>>
 vars == <<base, day, tod, wend, mf, files, local, ready, uploaded, store, merged, charts, resp,
-          incs, built, nRun, nDown, nSet, nWork, last>>
+          hist, built, nInc, nRun, nDown, nSet, nWork, last>>
 
 Lbl(op, p, n, m, x, up, s, e) == [op |-> op, p |-> p, n |-> n, m |-> m, x |-> x, up |-> up, s |-> s, e |-> e]
 NoRep == [wk |-> -1, x |-> -1, progs |-> {}, data |-> {}]
 
 (* ---- configuration semantics (Approval.tla) ------------------------------ *)
-BuildOK(p) == A!Approved5(Cfg, BuildRec[p])
-NameOK(p, n, x) == A!NameApproved(Cfg, BuildRec[p].program, Chars[n], x)
+(* Approval's operators, tabulated once over the finite universe of builds and *)
+(* names (TLC evaluates constant definitions a single time).                   *)
+BuildOKTab == [p \in Builds |-> A!Approved5(Cfg, BuildRec[p])]
+RatesTab == [p \in Builds |-> [n \in Names |-> A!NameRates(Cfg, BuildRec[p].program, Chars[n])]]
+ListedTab == [p \in Builds |-> [n \in Names |->
+                 IF A!IsStack(Chars[n]) THEN A!StackListed(Cfg, BuildRec[p].program, Chars[n])
+                                        ELSE A!CounterListed(Cfg, BuildRec[p].program, Chars[n])]]
+BuildOK(p) == BuildOKTab[p]
+NameOK(p, n, x) == \E r \in RatesTab[p][n] : x <= r          \* A!NameApproved: "rate not below X"
 (* the report made ready for upload: the approved part of the local one *)
 UploadRep(lr) == [wk |-> lr.wk, x |-> lr.x,
                   progs |-> {p \in lr.progs : BuildOK(p)},
                   data |-> {t \in lr.data : BuildOK(t.p) /\ NameOK(t.p, t.n, lr.x)}]
-(* what the upload server accepts: a non-zero X and only approved contents *)
+(* what the upload server accepts: a non-zero X and only approved contents     *)
+(* (A!ServerAccepts: every program entry an approved build, every counter and  *)
+(* stack listed for its program -- whatever the rate)                          *)
+ServerOK(r) == /\ r.x # 0
+               /\ \A p \in r.progs : BuildOK(p)
+               /\ \A t \in r.data : t.p \in r.progs /\ ListedTab[t.p][t.n]
+(* the same through Approval's own report vocabulary (checked equal in the small configurations) *)
 ARep(r) == A!ReportOf({[b |-> BuildRec[t.p], n |-> Chars[t.n], v |-> t.v] : t \in r.data}, {BuildRec[p] : p \in r.progs})
-ServerOK(r) == r.x # 0 /\ A!ServerAccepts(Cfg, ARep(r))
+ServerOKA(r) == r.x # 0 /\ A!ServerAccepts(Cfg, ARep(r))
+UploadRepA(lr) == LET Ap(c, b) == A!Approved5(c, b)
+                      f == A!Filter(Ap, Cfg, {[b |-> BuildRec[t.p], n |-> Chars[t.n], v |-> t.v] : t \in lr.data}, lr.x)
+                  IN {t \in lr.data : [b |-> BuildRec[t.p], n |-> Chars[t.n], v |-> t.v] \in f}
 
 (* ---- helpers --------------------------------------------------------------- *)
 KeyOf(c) == [p |-> c.p, b |-> c.b, e |-> c.e]
@@ -94,8 +111,8 @@ Init == /\ base \in Anchors /\ day = base /\ tod \in {0, 43200}
         /\ mf \in InitModes
         /\ files = {} /\ local = {} /\ ready = {} /\ uploaded = {} /\ store = {}
         /\ merged = {} /\ charts = {} /\ resp = 0
-        /\ incs = <<>> /\ built = {}
-        /\ nRun = 0 /\ nDown = 0 /\ nSet = 0 /\ nWork = 0
+        /\ hist = {} /\ built = {}
+        /\ nInc = 0 /\ nRun = 0 /\ nDown = 0 /\ nSet = 0 /\ nWork = 0
         /\ last = Lbl("init", "", "", "", 0, TRUE, 0, 0)
 
 (* ---- Inc: a program build increments a counter ---------------------------------- *)
@@ -103,14 +120,14 @@ Init == /\ base \in Anchors /\ day = base /\ tod \in {0, 43200}
 (* later day that falls on the week-end weekday (C09).  Nothing happens in mode *)
 (* off (C02).                                                                    *)
 Inc(p, n) ==
-    /\ Len(incs) < MaxInc
+    /\ nInc < MaxInc
+    /\ nInc' = nInc + 1
     /\ IF EffMode(mf) = "off"
-       THEN /\ files' = files
-            /\ incs' = Append(incs, [p |-> p, n |-> n, landed |-> FALSE, b |-> -1, e |-> -1])
+       THEN UNCHANGED <<files, hist>>
        ELSE LET b == Begin(day)  e == End(day, wend)
-                old == {c \in files : c.p = p /\ c.b = b /\ c.e = e /\ c.n = n}
-            IN /\ files' = (files \ old) \cup {[p |-> p, b |-> b, e |-> e, n |-> n, v |-> SumV(old) + 1]}
-               /\ incs' = Append(incs, [p |-> p, n |-> n, landed |-> TRUE, b |-> b, e |-> e])
+                Bump(cs) == LET old == {c \in cs : c.p = p /\ c.b = b /\ c.e = e /\ c.n = n}
+                            IN (cs \ old) \cup {[p |-> p, b |-> b, e |-> e, n |-> n, v |-> SumV(old) + 1]}
+            IN files' = Bump(files) /\ hist' = Bump(hist)
     /\ last' = Lbl("inc", p, n, "", 0, TRUE, 0, 0)
     /\ UNCHANGED <<base, day, tod, wend, mf, local, ready, uploaded, store, merged, charts, resp, built, nRun, nDown, nSet, nWork>>
 
@@ -129,7 +146,7 @@ Tick(i) ==
     /\ i \in Targets /\ Later(i, <<day, tod>>) /\ i[1] <= base + Horizon
     /\ day' = i[1] /\ tod' = i[2]
     /\ last' = Lbl("tick", "", "", "", 0, TRUE, i[1], i[2])
-    /\ UNCHANGED <<base, wend, mf, files, local, ready, uploaded, store, merged, charts, resp, incs, built, nRun, nDown, nSet, nWork>>
+    /\ UNCHANGED <<base, wend, mf, files, local, ready, uploaded, store, merged, charts, resp, hist, built, nInc, nRun, nDown, nSet, nWork>>
 
 (* ---- SetMode: the user records a mode as of today ------------------------------------- *)
 SetMode(m) ==
@@ -137,7 +154,7 @@ SetMode(m) ==
     /\ mf' = Written(m, day)
     /\ nSet' = nSet + 1
     /\ last' = Lbl("setmode", "", "", m, 0, TRUE, 0, 0)
-    /\ UNCHANGED <<base, day, tod, wend, files, local, ready, uploaded, store, merged, charts, resp, incs, built, nRun, nDown, nWork>>
+    /\ UNCHANGED <<base, day, tod, wend, files, local, ready, uploaded, store, merged, charts, resp, hist, built, nInc, nRun, nDown, nWork>>
 
 (* ---- RunUploader: the crash-free sequential outcome of one uploader run ---------------- *)
 (* with X = x for the reports it builds; `up` says whether the upload server      *)
@@ -171,14 +188,14 @@ RunUploader(x, up) ==
     /\ nRun' = nRun + 1
     /\ nDown' = IF up THEN nDown ELSE nDown + 1
     /\ last' = Lbl("run", "", "", "", x, up, 0, 0)
-    /\ UNCHANGED <<base, day, tod, wend, mf, merged, charts, resp, incs, nSet, nWork>>
+    /\ UNCHANGED <<base, day, tod, wend, mf, merged, charts, resp, hist, nInc, nSet, nWork>>
 
 (* ---- the worker --------------------------------------------------------------------------- *)
 (* Merge(s, e): the days s..e are merged one after the other (what the daily    *)
 (* task queue does); merging a day writes one line per object stored for it.    *)
 Objs(st, d) == {o \in st : o.wk = d}
 MergedDay(st, d) == [day |-> d, n |-> Cardinality(Objs(st, d)), lines |-> Objs(st, d)]
-WorkDays == {o.wk : o \in store} \cup {g.day : g \in merged} \cup {day}
+WorkDays == LET ds == {o.wk : o \in store} \cup {g.day : g \in merged} IN IF ds = {} THEN {day} ELSE ds
 MergeRanges == {<<d, d>> : d \in WorkDays} \cup {<<d - 1, d>> : d \in WorkDays}
                  \cup {<<a, b>> \in WorkDays \X WorkDays : a < b /\ b - a <= 14}
 Merge(s, e) ==
@@ -187,7 +204,7 @@ Merge(s, e) ==
     /\ resp' = 200
     /\ nWork' = nWork + 1
     /\ last' = Lbl("merge", "", "", "", 0, TRUE, s, e)
-    /\ UNCHANGED <<base, day, tod, wend, mf, files, local, ready, uploaded, store, charts, incs, built, nRun, nDown, nSet>>
+    /\ UNCHANGED <<base, day, tod, wend, mf, files, local, ready, uploaded, store, charts, hist, built, nInc, nRun, nDown, nSet>>
 
 (* what a report line carries (WorkerChart.tla): the four build charts of every *)
 (* program entry and chart:bucket of every counter (stack counters carry none)  *)
@@ -200,7 +217,7 @@ RangeDays(mg, s, e) == {g \in mg : g.day \in s..e}
 RangeLines(mg, s, e) == UNION {g.lines : g \in RangeDays(mg, s, e)}
 ValSet(f) == {[p |-> t[1], c |-> t[2], k |-> t[3], v |-> f[t]] : t \in {t \in DOMAIN f : f[t] > 0}}
 
-ChartRanges == {<<g.day, g.day>> : g \in merged} \cup {<<a.day, b.day>> : a, b \in merged} \cup {<<day, day>>}
+ChartRanges == {<<a.day, b.day>> : a, b \in merged} \cup (IF merged = {} THEN {<<day, day>>} ELSE {})
 Chart(s, e) ==
     /\ nWork < MaxWork /\ s <= e
     /\ IF \E d \in s..e : ~\E g \in merged : g.day = d
@@ -212,7 +229,7 @@ Chart(s, e) ==
                /\ resp' = 200
     /\ nWork' = nWork + 1
     /\ last' = Lbl("chart", "", "", "", 0, TRUE, s, e)
-    /\ UNCHANGED <<base, day, tod, wend, mf, files, local, ready, uploaded, store, merged, incs, built, nRun, nDown, nSet>>
+    /\ UNCHANGED <<base, day, tod, wend, mf, files, local, ready, uploaded, store, merged, hist, built, nInc, nRun, nDown, nSet>>
 
 Next == \/ \E p \in Builds, n \in Names : Inc(p, n)
         \/ \E i \in Targets : Tick(i)
@@ -232,17 +249,17 @@ Spec == Init /\ [][Next]_vars
 (* contributing file, and value is the sum of the increments that landed in    *)
 (* that week for that build; every increment contributes to at most one stored *)
 (* report.                                                                     *)
-Landed(ih, p, n, wk) == {i \in DOMAIN ih : ih[i].landed /\ ih[i].p = p /\ ih[i].n = n /\ ih[i].e = wk}
+Landed(ih, p, n, wk) == SumV({h \in ih : h.p = p /\ h.n = n /\ h.e = wk})
 EndToEndOn(st, ih, bh) ==
     /\ \A o \in st :
          /\ \A p \in o.progs : BuildOK(p)
          /\ \A t \in o.data : /\ t.p \in o.progs /\ BuildOK(t.p) /\ NameOK(t.p, t.n, o.x)
-                              /\ t.v = Cardinality(Landed(ih, t.p, t.n, o.wk))
+                              /\ t.v = Landed(ih, t.p, t.n, o.wk)
          /\ \E g \in bh : /\ g.wk = o.wk /\ ExactlyOn(g.mf)
                           /\ (OptIn(g.mf) # NoDate => \A f \in g.src : OptIn(g.mf) < f.b)
-    /\ \A i \in DOMAIN ih :
-         Cardinality({o \in st : ih[i].landed /\ o.wk = ih[i].e /\ \E t \in o.data : t.p = ih[i].p /\ t.n = ih[i].n}) <= 1
-EndToEnd == EndToEndOn(store, incs, built)
+    /\ \A h \in ih :
+         Cardinality({o \in st : o.wk = h.e /\ \E t \in o.data : t.p = h.p /\ t.n = h.n}) <= 1
+EndToEnd == EndToEndOn(store, hist, built)
 
 (* the store holds exactly the approved subset of the week's local report (C01: *)
 (* "every approved counter present locally whose rate is at least X is included") *)
@@ -312,5 +329,9 @@ TypeOK == /\ \A r \in local \cup ready \cup uploaded \cup store : r.x \in Xs /\ 
           /\ \A a, b \in merged : a.day = b.day => a = b
           /\ resp \in {0, 200, 404}
 
-View == <<day, tod, wend, mf, files, local, ready, uploaded, store, merged, charts, resp, incs, built, nRun, nDown, nSet, nWork>>
+(* the tabulated configuration semantics agree with Approval.tla on every report met *)
+TablesAgree == /\ \A l \in local : UploadRep(l).data = UploadRepA(l)
+               /\ \A r \in ready \cup uploaded \cup store \cup {UploadRep(l) : l \in local} \cup local : ServerOK(r) = ServerOKA(r)
+
+View == <<day, tod, wend, mf, files, local, ready, uploaded, store, merged, charts, resp, hist, built, nInc, nRun, nDown, nSet, nWork>>
 =============================================================================
